@@ -2,7 +2,7 @@ import MudExec
 open Mud.Exec
 
 def table (name : String) : Option Op :=
-  (tableA ++ tableB ++ tableC ++ tableD ++ tableE ++ tableF ++ tableG ++ tableH ++ tableI ++ tableJ ++ tableK).lookup name
+  (tableA ++ tableB ++ tableC ++ tableD ++ tableE ++ tableF ++ tableG ++ tableH ++ tableI ++ tableJ ++ tableK ++ tableL).lookup name
 
 partial def loop (h : IO.FS.Stream) (out : IO.FS.Stream) : IO Unit := do
   let line ← h.getLine
